@@ -2,6 +2,7 @@ package sim
 
 import (
 	"fmt"
+	"runtime"
 	"testing"
 
 	"github.com/herumi/bls-eth-go-binary/bls"
@@ -305,6 +306,47 @@ func runThreshold(t *testing.T, rc *RunCtx) {
 	}
 	// Count valid partial signatures per duty, one per instance.
 	signers := [2]map[*Node][]byte{{}, {}}
+	// Swarm variant: the adversarial client also tries the generic endpoints.  Each instance gets, per duty, a generic
+	// request for the duty's root under its (slashable) domain, and a Multisign whose first entry is that root and domain -
+	// addressed to the validator or to the decoy - followed by an entry with a harmless domain for the validator, on more than
+	// one worker.  Whatever comes back is tried against both duties under the instance's share key.
+	if ch.Pick(3, 0) == 2 {
+		prevProcs := runtime.GOMAXPROCS([]int{2, 4, 16}[ch.Pick(3, 0)])
+		for _, nd := range c.Nodes {
+			for d := 0; d < 2; d++ {
+				slash := Entry{Acct: 0, Data: duties[d].ObjectRoot(kind), Domain: duties[d].Domain, AddrPath: path}
+				other := slash
+				if decoyPath != "" && ch.Pick(2, 0) == 1 {
+					other.AddrPath = decoyPath
+				}
+				harmless := GenEntry(0, MkDomain([4]byte{7, 0, 0, 0}, uint64(d)), uint64(9000+d))
+				harmless.AddrPath = path
+				ops := []*Op{
+					{Kind: "gen", Client: "client1", Entries: []Entry{slash}},
+					{Kind: "multi", Client: "client1", Entries: []Entry{other, harmless}},
+					{Kind: "multi", Client: "client1", Entries: []Entry{harmless, other, harmless}},
+				}
+				inst := nd.Inst
+				for _, o := range ops {
+					var res *OpResult
+					s.Direct(func() { res = o.Exec(inst) })
+					rc.Stats.Inc("probe_duties_tried_through_generic_endpoints", 1)
+					if res == nil {
+						continue
+					}
+					for i := range res.Sigs {
+						for dd := 0; dd < 2; dd++ {
+							if len(res.Sigs[i]) > 0 && VerifySig(shareKey[nd], res.Sigs[i], duties[dd].ObjectRoot(kind), duties[dd].Domain) {
+								rc.Violate("C05", "generic-signature-valid-under-slashable-domain", fmt.Sprintf("%s position %d on %s: a partial signature for duty %c came back from a generic endpoint", o, i, nd.Name, 'A'+dd), s.Step)
+								signers[dd][nd] = res.Sigs[i]
+							}
+						}
+					}
+				}
+			}
+		}
+		runtime.GOMAXPROCS(prevProcs)
+	}
 	for _, r := range reqs {
 		pos := 0
 		if len(r.op.Entries) == 2 && r.op.Entries[0].AddrPath == decoyPath && decoyPath != "" {
